@@ -25,8 +25,8 @@ FLAVOURS = {
                  ldflags="-fsanitize=thread"),
     "fuzz": dict(cc="clang", cflags="-O1 -g -fno-omit-frame-pointer "
                  "-fsanitize=fuzzer-no-link,address,undefined -fno-sanitize-recover=all "
-                 "-fno-sanitize=object-size,null -D" + GUARD,
-                 ldflags="-fsanitize=fuzzer,address,undefined"),
+                 "-fno-sanitize=object-size,null -Wno-error=format-security -Wno-error=format-nonliteral -D" + GUARD,
+                 ldflags="-fsanitize=fuzzer,address,undefined"),   # clang's default -Wformat-security is not in the project's gcc flag set: a tree gcc accepts must build here too
     "ubsan-fast": dict(cc="gcc", cflags="-O2 -g -fsanitize=undefined -fno-sanitize-recover=all -D" + GUARD,
                        ldflags="-fsanitize=undefined"),
     "plain": dict(cc="gcc", cflags="-O1 -g -fno-omit-frame-pointer -D" + GUARD, ldflags=""),
